@@ -182,6 +182,58 @@ def gen_image(rng, big=False, multi=None, custom_rgb=None):
     return {'frames': frames, 'anim': rng.choices((1, 0), (75, 25))[0], 'pngalpha': rng.choice((255, 255, 0, 128, rng.randrange(256))),
             'level': rng.choice((9, 9, 6, 1, 0, rng.randrange(10))), 'rgb': rgb}
 
+def gen_directed(rng, n):
+    """An image aimed at one of the 16 encoder-selection slots (colour count class x full size x masked)."""
+    cls, full, masked = (n >> 2) & 3, n & 1, (n >> 1) & 1
+    img = gen_image(rng, multi=False, custom_rgb=False)
+    f = img['frames'][0]
+    ntiles = len(f['tiles'])
+    cols3 = rng.sample(range(8), 4)
+    bright = rng.choice((0, 64))
+    if cls == 0:
+        c = rng.randrange(8)
+        pool = [c | (c << 3) | bright]
+    elif cls == 1:
+        if masked and rng.random() < 0.5:
+            c = rng.randrange(8)
+            pool = [c | (c << 3) | bright]
+        else:
+            pool = [cols3[0] | (cols3[1] << 3) | bright]
+    elif cls == 2:
+        k = 2 if masked else rng.choice((3, 4))
+        pool = [cols3[i] | (cols3[(i + 1) % (k if k > 2 else 3)] << 3) | bright for i in range(2)]
+        if not masked and k == 4:
+            pool.append(cols3[2] | (cols3[3] << 3) | bright)
+    else:
+        pool = [rng.randrange(128) for _ in range(12)]
+    if rng.random() < 0.3 and cls:
+        pool = [a | 128 if rng.random() < 0.5 else a for a in pool]
+    f['mask'] = rng.choice((1, 2)) if masked else rng.choice((0, 0, 1, 2))
+    tiles = []
+    for i in range(ntiles):
+        d = _bytes8(rng, 'random')
+        m = None
+        if masked:
+            if cls == 0 or (cls == 1 and len({pool[0] & 7, (pool[0] >> 3) & 7}) == 2):
+                m = bytes(8) if f['mask'] == 2 or cls == 0 else bytes([255] * 8)
+                if cls == 0 and f['mask'] == 1:
+                    m = bytes(8)
+            else:
+                m = _bytes8(rng, 'random')
+        tiles.append([pool[i % len(pool)] if i < len(pool) else rng.choice(pool), d.hex(), m.hex() if m is not None else None])
+    f['tiles'] = tiles
+    if full:
+        f['crop'] = [0, 0, None, None]
+    elif f['crop'] == [0, 0, None, None] or crop_is_full(f):
+        ocols, orows = (f['rows'], f['cols']) if f['rotate'] & 1 else (f['cols'], f['rows'])
+        fw, fh = 8 * ocols * f['scale'], 8 * orows * f['scale']
+        f['crop'] = [rng.randrange(0, 4), rng.randrange(0, 4), fw - rng.randint(4, 6), fh - rng.randint(4, 6)]
+    return img
+
+def crop_is_full(f):
+    ocols, orows = (f['rows'], f['cols']) if f['rotate'] & 1 else (f['cols'], f['rows'])
+    return frame_size(f) == (8 * ocols * f['scale'], 8 * orows * f['scale'])
+
 def summary(img):
     f = img['frames'][0]
     return '%d frame(s); frame0 %dx%d tiles scale %d mask %d crop %s flip %d rotate %d tindex %d alpha %d anim %d' % (
